@@ -4,10 +4,12 @@
    (plus sanity clauses of the statement), and exports the cases with the expected additions. *)
 EXTENDS SmartAdd, TLC, Json, IOUtils, SequencesExt
 CONSTANTS IgnSets,      \* the ignore lists to enumerate (subsets of Pats)
-          MaxArgs       \* at most this many paths are named
+          MaxArgs,      \* at most this many paths are named
+          LaySel        \* {} = every layout; otherwise the layouts (sets of items without "@ign") to enumerate
 ParentClosed(S) == \A p \in S : Par(p) = "" \/ Par(p) \in S
 \* the helper files of a conflict come together
-Layouts(ign) == {L \in SUBSET (Items \ {"@ign"}) : ParentClosed(L) /\ ("f.THIS" \in L <=> "f.OTHER" \in L)}
+AllLayouts == {L \in SUBSET (Items \ {"@ign"}) : ParentClosed(L) /\ ("f.THIS" \in L <=> "f.OTHER" \in L)}
+Layouts(ign) == IF LaySel = {} THEN AllLayouts ELSE LaySel \cap AllLayouts
 WithIgn(L, ign) == IF ign = {} THEN L ELSE L \cup {"@ign"}
 PreChoices(L) == IF Flavour = "bzr" THEN {P \in {{}, {"f"}, {"d"}, {"d", "d/f"}} : P \subseteq L}
                  ELSE SUBSET ({"f", "d/f"} \cap L)
@@ -22,32 +24,35 @@ Init == c \in Cases
 Next == UNCHANGED c
 \* design checks: the statement and the walk agree; sanity clauses of the statement
 LawsHoldOnSpec ==
-    /\ ExpectedAdded(c) = WalkAdded(c)
-    /\ ExpectedAdded(c) \subseteq c.lay \ c.pre
-    /\ Flavour = "bzr" => (Named(c) \subseteq c.pre \cup ExpectedAdded(c))
-    /\ Flavour = "bzr" => \A p \in ExpectedAdded(c) : Par(p) = "" \/ Par(p) \in c.pre \cup ExpectedAdded(c)
-    /\ ~c.rec => ExpectedAdded(c) = NamedAdded(c)
-    /\ \A p \in ExpectedAdded(c) \ NamedAdded(c) : ~Ctl(p) /\ p \notin Helpers(c) /\ ~Ignored(c, p)
+    LET e == ExpectedAdded(c)
+        na == NamedAdded(c)
+    IN /\ e = WalkAdded(c)
+       /\ e \subseteq c.lay \ c.pre
+       /\ Flavour = "bzr" => (Named(c) \subseteq c.pre \cup e)
+       /\ Flavour = "bzr" => \A p \in e : Par(p) = "" \/ Par(p) \in c.pre \cup e
+       /\ ~c.rec => e = na
+       /\ \A p \in e \ na : ~Ctl(p) /\ p \notin Helpers(c) /\ ~Ignored(c, p)
 \* anti-vacuity: every exported case carries the names of the witness predicates it satisfies; the harness requires each
 \* name to occur (TLC evaluates them, one run)
-WitNamedIgnored(x) == \E a \in Named(x) : Ignored(x, a) /\ a \in ExpectedAdded(x)
-WitNestedSkipped(x) == /\ x.rec /\ "." \in x.args /\ "n/@" \in x.lay /\ "n" \notin ExpectedAdded(x)
-                       /\ (IF Flavour = "bzr" THEN "d" ELSE "d/f") \in ExpectedAdded(x)
-WitHelperSkipped(x) == x.rec /\ "." \in x.args /\ "f.THIS" \in x.lay /\ "f.THIS" \notin ExpectedAdded(x) /\ x.conf # {}
-WitHelperAddedWithoutConflict(x) == x.rec /\ "f.THIS" \in ExpectedAdded(x) /\ x.conf = {}
-WitVersionedOverridesIgnore(x) == /\ Flavour = "bzr" /\ "d" \in x.pre /\ "d" \in x.ign /\ "d/g.o" \in ExpectedAdded(x)
-                                  /\ "d" \notin x.args
-WitIgnoredDirSkipped(x) == x.rec /\ "." \in x.args /\ "d" \in x.ign /\ "d/g.o" \in x.lay /\ "d/g.o" \notin ExpectedAdded(x)
-                           /\ "d" \notin x.pre /\ "d/@" \notin x.lay /\ ~Ignored(x, "d/g.o")
-Wits(x) == {w \in {"NamedIgnored", "NestedSkipped", "HelperSkipped", "HelperAddedWithoutConflict",
+WitNamedIgnored(x, e) == \E a \in Named(x) : Ignored(x, a) /\ a \in e
+WitNestedSkipped(x, e) == /\ x.rec /\ "." \in x.args /\ "n/@" \in x.lay /\ "n" \notin e
+                          /\ (IF Flavour = "bzr" THEN "d" ELSE "d/f") \in e
+WitHelperSkipped(x, e) == x.rec /\ "." \in x.args /\ "f.THIS" \in x.lay /\ "f.THIS" \notin e /\ x.conf # {}
+WitHelperAddedWithoutConflict(x, e) == x.rec /\ "f.THIS" \in e /\ x.conf = {}
+WitVersionedOverridesIgnore(x, e) == /\ Flavour = "bzr" /\ "d" \in x.pre /\ "d" \in x.ign /\ "d/g.o" \in e
+                                     /\ "d" \notin x.args
+WitIgnoredDirSkipped(x, e) == x.rec /\ "." \in x.args /\ "d" \in x.ign /\ "d/g.o" \in x.lay /\ "d/g.o" \notin e
+                              /\ "d" \notin x.pre /\ "d/@" \notin x.lay /\ ~IgnoredB(x, "d/g.o")
+Wits(x, e) == {w \in {"NamedIgnored", "NestedSkipped", "HelperSkipped", "HelperAddedWithoutConflict",
                    "VersionedOverridesIgnore", "IgnoredDirSkipped"} :
-              CASE w = "NamedIgnored" -> WitNamedIgnored(x) [] w = "NestedSkipped" -> WitNestedSkipped(x)
-                [] w = "HelperSkipped" -> WitHelperSkipped(x) [] w = "HelperAddedWithoutConflict" -> WitHelperAddedWithoutConflict(x)
-                [] w = "VersionedOverridesIgnore" -> WitVersionedOverridesIgnore(x)
-                [] w = "IgnoredDirSkipped" -> WitIgnoredDirSkipped(x)}
-Out(x) == [c |-> [lay |-> SetToSeq(x.lay), ign |-> SetToSeq(x.ign), conf |-> SetToSeq(x.conf), pre |-> SetToSeq(x.pre),
+              CASE w = "NamedIgnored" -> WitNamedIgnored(x, e) [] w = "NestedSkipped" -> WitNestedSkipped(x, e)
+                [] w = "HelperSkipped" -> WitHelperSkipped(x, e) [] w = "HelperAddedWithoutConflict" -> WitHelperAddedWithoutConflict(x, e)
+                [] w = "VersionedOverridesIgnore" -> WitVersionedOverridesIgnore(x, e)
+                [] w = "IgnoredDirSkipped" -> WitIgnoredDirSkipped(x, e)}
+Out(x) == LET e == ExpectedAdded(x) IN
+          [c |-> [lay |-> SetToSeq(x.lay), ign |-> SetToSeq(x.ign), conf |-> SetToSeq(x.conf), pre |-> SetToSeq(x.pre),
                   args |-> SetToSeq(x.args), rec |-> x.rec],
-           exp |-> SetToSeq(ExpectedAdded(x)), wit |-> SetToSeq(Wits(x))]
+           exp |-> SetToSeq(e), wit |-> SetToSeq(Wits(x, e))]
 Export == JsonSerialize(IOEnv.VF_OUT, SetToSeq({Out(x) : x \in Cases}))
 ASSUME IF "VF_OUT" \in DOMAIN IOEnv THEN Export ELSE TRUE
 =============================================================================
